@@ -41,7 +41,40 @@ def ref_index(pixel_shape: tuple[int, ...], coords: list[np.ndarray], mode: str)
     return np.where(valid, idx, -1)
 
 
+def case_pixel_int(rng: Any, ctx: Ctx, index: int) -> None:
+    """Integer-typed pixel coordinates of narrow dtypes on maps with more pixels than the dtype can count: the index is computed
+    in a dtype wide enough for N whatever the dtype of the coordinates."""
+    nd = int(rng.integers(1, 4))
+    shape = tuple(int(v) for v in rng.integers(1, (200, 21, 8)[nd - 1], size=nd))
+    land = GridLandscape(pixel_shape=shape[::-1], stokes='I', dtype=np.float32)
+    pshape = shape[::-1]
+    n = 300
+    idt = gen.pick(rng, [np.int8, np.int16, np.uint8, np.int32, 'mixed'])
+    coords, cast = [], []
+    for k, d in enumerate(pshape):
+        dtk = idt if idt != 'mixed' else (np.float32 if k == 0 else np.int16)
+        lo = 0 if np.dtype(dtk).kind == 'u' else -2
+        hi = min(d + 2, np.iinfo(dtk).max) if np.dtype(dtk).kind in 'iu' else d + 2
+        c = rng.integers(lo, max(hi, lo + 1), size=n)
+        coords.append(c.astype(np.float64))
+        cast.append(c.astype(dtk))
+    LOG.case_key(f'pixel2index:{nd}d:integer-coords:{idt if isinstance(idt, str) else np.dtype(idt).name}:{"big" if math.prod(shape) > 127 else "small"}', True)
+
+    def judge() -> None:
+        got = np.asarray(land.pixel2index(*[jnp.asarray(c) if rng.integers(2) else c for c in cast]))
+        ref = ref_index(pshape, coords, 'even')
+        LOG.evaluated('C17.pixel2index', n)
+        LOG.count('C17.pixel2index.kind', 'integer-coords')
+        if not np.array_equal(got.astype(np.int64), ref):
+            j = int(np.nonzero(got.astype(np.int64) != ref)[0][0])
+            LOG.violation('C17', 'C17.pixel2index', f'pixel2index/integer-coordinates/{nd}d',
+                          f'{idt if isinstance(idt, str) else np.dtype(idt).name} coords {[int(c[j]) for c in coords]} in map {pshape}: got {int(got[j])}, expected {int(ref[j])}')
+    guarded('C17.pixel2index', judge)
+
+
 def case_pixel(rng: Any, ctx: Ctx, index: int) -> None:
+    if index % 8 == 7:
+        return case_pixel_int(rng, ctx, index)
     nd = int(rng.integers(1, 4))
     shape = tuple(int(v) for v in rng.integers(1, 7, size=nd))       # array shape (reverse of pixel_shape)
     land = GridLandscape(shape, 'I', np.float32) if rng.integers(2) else GridLandscape(pixel_shape=shape[::-1], stokes='IQU', dtype=np.float32)
